@@ -38,7 +38,7 @@ CLASSES = [
     "masses_and_mass_numbers", "provenance_list", "nested_extras", "connectivity", "fragments", "fix_symmetry",
     "input_minimal", "input_full", "input_drivers", "input_no_basis", "input_run_type",
     "output_energy", "output_gradient", "output_hessian", "output_properties", "output_empty_properties",
-    "output_stdout_stderr", "output_nulls", "output_return_result_only",
+    "output_stdout_stderr", "output_nulls", "output_return_result_only", "unknown_keys",
 ]
 
 DRIVERS = ["energy", "gradient", "hessian", "properties"]
@@ -181,6 +181,13 @@ def generate(rng, klass):
     feats = [klass]
     if klass == "molecule_v2_minimal":
         doc = _molecule(rng)
+    elif klass == "unknown_keys":
+        # keys outside the schema, at the top level and inside an input's molecule (the reader passes them through)
+        doc = _molecule(rng) if rng.random() < 0.5 else _input(rng, _molecule(rng))
+        for target in ([doc] if "molecule" not in doc else [doc, doc["molecule"]]):
+            for key in ("workflow_id", "zz_note", "aa_flag", "my_tags", "Custom-Key", "site_local"):
+                target[key] = {"workflow_id": int(rng.integers(1000)), "zz_note": "kept", "aa_flag": True, "my_tags": ["a", "b"],
+                               "Custom-Key": 1.5, "site_local": {"q": 1, "p": 2}}[key]
     elif klass == "molecule_v1":
         doc = _molecule(rng, version=1, optional=("name", "comment", "atom_labels"))
         if rng.random() < 0.5:
@@ -391,4 +398,4 @@ def expected(model):
 
 
 # Classes that are generated but NOT asserted by C03 (triage decisions, see DESIGN.md section 7): class -> reason
-NOT_ASSERTED = {'fix_symmetry': 'g_rot type question', 'output_empty_properties': 'empty dicts are removed on purpose by the reader', 'output_return_result_only': 'omission', 'output_gradient': 'omission', 'output_hessian': 'omission', 'masses_and_mass_numbers': 'both fields present: reader documents that both go to extra'}
+NOT_ASSERTED = {'unknown_keys': 'keys outside the schema are passed through; used by the C15 / C16 workloads only', 'fix_symmetry': 'g_rot type question', 'output_empty_properties': 'empty dicts are removed on purpose by the reader', 'output_return_result_only': 'omission', 'output_gradient': 'omission', 'output_hessian': 'omission', 'masses_and_mass_numbers': 'both fields present: reader documents that both go to extra'}
